@@ -31,6 +31,7 @@ theorem rpmsCheck_record (a : RpmsArgs) (p : RpmsPlan) (h : rpmsCheck a = .ok p)
   split at h; · cases h
   split at h; · cases h
   split at h; · cases h
+  split at h; · cases h
   simp only at h
   split at h; · cases h
   cases h
@@ -125,7 +126,7 @@ theorem extraLeaf_jsonRep (arch : Str) (r x : PyVal) (hr : jsonRep r = true) (hx
   | _ => simpa [jsonRep] using hx
 
 theorem rpms_add_jsonRep (s : PyVal) (a : RpmsArgs) (h : jsonRep s = true) : jsonRep (Rpms.add s a).1 = true := by
-  unfold Rpms.add
+  rw [Rpms.add_eq]
   cases hc : rpmsCheck a with
   | error e => exact h
   | ok p =>
@@ -134,7 +135,7 @@ theorem rpms_add_jsonRep (s : PyVal) (a : RpmsArgs) (h : jsonRep s = true) : jso
 
 theorem modules_add_jsonRep (s : PyVal) (a : ModulesArgs) (ha : a.rpms.jsonRep = true) (h : jsonRep s = true) :
     jsonRep (Modules.add s a).1 = true := by
-  unfold Modules.add
+  rw [Modules.add_eq]
   cases hc : modulesCheck a with
   | error e => exact h
   | ok p =>
@@ -148,7 +149,7 @@ theorem extraCheck_record (a : ExtraArgs) (r : PyVal) (h : extraCheck a = .ok r)
 
 theorem extra_add_jsonRep (s : PyVal) (a : ExtraArgs) (ha : jsonRep a.size = true ∧ jsonRep a.checksums = true)
     (h : jsonRep s = true) : jsonRep (ExtraFiles.add s a).1 = true := by
-  unfold ExtraFiles.add
+  rw [ExtraFiles.add_eq]
   cases hc : extraCheck a with
   | error e => exact h
   | ok r =>
